@@ -592,6 +592,23 @@ fn json_mutants(seed: &[u8], row: &Value) -> Vec<Vec<u8>> {
     match s(&row["op"]) {
       "replace_value" => *slot = json_value(s(&row["with"])),
       "wrap_in_array" => *slot = json!([slot.clone(), slot.clone()]),
+      "cut_string" => {
+        let Some(text) = slot.as_str().map(|t| t.to_string()) else { continue };
+        let keep = i(&row["keep"]) as usize;
+        let chars: Vec<char> = text.chars().collect();
+        let start = if s(&row["at"]) == "start" {
+          0
+        } else {
+          match chars.iter().rposition(|c| matches!(c, ',' | ';' | ':' | '/' | '#' | '?' | '.')) {
+            Some(ix) => ix + 1,
+            None => continue,
+          }
+        };
+        if start + keep >= chars.len() {
+          continue;
+        }
+        *slot = json!(chars[..start + keep].iter().collect::<String>());
+      }
       "nest_deeply" => {
         let mut x = slot.clone();
         for _ in 0..200 {
